@@ -66,6 +66,7 @@ def outOf (genesis : Nat) (j : Json) : R Out := do
   let chain ← listF asNat j "chain"
   pure { chain := chain.map fun i => dict.getD i { number := 0, hash := "?", txs := [] },
          times := ← listF asNat j "times",
+         chainAfter := (← listF asNat j "chainAfter").map fun i => dict.getD i { number := 0, hash := "?", txs := [] },
          subs := ← listF (subOf genesis dict hashes) j "subs",
          accepted := ← listF (listOf asBool) j "accepted",
          results := sortBy recLe (← listF recOf j "results") }
@@ -83,7 +84,34 @@ def inferOrder (genesis count : Nat) (hists : List (List BlockKey)) : List Nat :
       idx :: go cur hs
   go [] hists
 
+def stressBlockOf (j : Json) : R (Nat × List Transmit) := do
+  pure ((← strF j "n").toNat?.getD badNumber, ← listF transmitOf j "tx")
+
+/-- an un-timed `Transmit` ∥ `Load` case -/
+def handleStress (input st impl : Json) : R Reply := do
+  let p : StressParams := { nodes := ← natF st "nodes", rounds := ← natF st "rounds",
+                            nrep := (← asList (← field input "reports")).length }
+  let got : StressOut := { accepted := ← listF (listOf asBool) impl "accepted",
+                           blocks := ← listF stressBlockOf impl "blocks",
+                           results := sortBy recLe (← listF recOf impl "results") }
+  let (allOk, blocks, results) := stressReplay got.blocks
+  let want : StressOut := { accepted := got.accepted, blocks := got.blocks.map (·.1) |>.zip blocks, results := results }
+  let agree := allOk && decide (want.blocks = got.blocks) && decide (want.results = got.results)
+  let si := stressOk p got
+  pure { agree := agree, specModel := (if agree then stressOk p want else true), specImpl := si,
+         diff := if agree then "" else
+           if !allOk then "the observed blocks are not a schedule the loader accepts (a transmit twice, or left in the queue)"
+           else if want.results ≠ got.results then
+             s!"Results(): {got.results.length} entries, model {want.results.length}; never in a block: {(got.results.filter (·.block.isNone)).length}"
+           else "blocks differ",
+         fail := if si then "" else stressExplain p got,
+         nontrivial := true,
+         tags := ["stress-transmit-vs-load"] ++ (if got.blocks.any (·.2.length ≥ 2) then ["several-transmits-per-block"] else []) }
+
 def handle (input impl : Json) : R Reply := do
+  match fieldD input "stress" .null with
+  | .null => pure ()
+  | st => return ← handleStress input st impl
   let inp ← inputOf input
   let native ← boolF input "native"
   let stalls ← listOf (fun j => do pure (← natF j "sub", ← natF j "from", ← natF j "to")) (fieldD input "stalls" (.arr #[]))
@@ -109,6 +137,10 @@ def handle (input impl : Json) : R Reply := do
       match (got.chain.zip want.chain).zipIdx.find? (fun ((a, b), _) => a ≠ b) with
       | some ((a, b), i) => s!"chain block {i}: model={repr b} impl={repr a}"
       | none => s!"chain: {got.chain.length} blocks, model {want.chain.length}"
+    else if got.chainAfter ≠ want.chainAfter then
+      match (got.chainAfter.zip want.chainAfter).zipIdx.find? (fun ((a, b), _) => a ≠ b) with
+      | some ((a, b), i) => s!"block {i} at the end of the run: mined={repr b} now={repr a}"
+      | none => s!"chain at the end: {got.chainAfter.length} blocks, model {want.chainAfter.length}"
     else if got.times ≠ want.times then s!"broadcast instants: model={want.times.take 6}… impl={got.times.take 6}…"
     else if got.accepted ≠ want.accepted then s!"accepted: model={want.accepted} impl={got.accepted}"
     else if got.results ≠ want.results then s!"results: model={repr want.results} impl={repr got.results}"
